@@ -152,6 +152,37 @@ def extra_checks(rep, pid, ledger, known):
         if not ok:
             p = driver.write_replay(pid, name, {"property": pid, "obligation": name, "verifier_output": f"{qual} does not return tarfile.<factory>(..., tarinfo=VisorTarInfo)"})
             rep.violations.append((p, f"vmtar.{qual} does not pass tarinfo=VisorTarInfo to the stdlib factory", True))
+        # frame of the factory: the stdlib reader receives the caller's arguments unchanged (same file object, same mode), so that
+        # opening, gzip detection and decompression are the stdlib's (assumed contract A3) and nothing of the archive is consumed,
+        # rewrapped or replaced before it.  Shape: the body is `return tarfile.<factory>(*<varargs>, **<kwargs>, tarinfo=VisorTarInfo)`
+        # (or the same call with every named parameter forwarded under its own name), after an optional docstring.
+        name2 = f"vmtar:{qual}/factory.delegates_arguments_unchanged"
+        why = ""
+        try:
+            node, _ = find_function(rep.repo, FILE, qual)
+            body = [b for b in node.body if not (isinstance(b, ast.Expr) and isinstance(b.value, ast.Constant))]
+            a = node.args
+            if len(body) != 1 or not isinstance(body[0], ast.Return) or not isinstance(body[0].value, ast.Call):
+                why = "the body is more than one return of a call"
+            else:
+                call = body[0].value
+                named = [x.arg for x in a.posonlyargs + a.args + a.kwonlyargs]
+                pos = [ast.unparse(x) for x in call.args]
+                kws = {(k.arg or "**"): ast.unparse(k.value) for k in call.keywords}
+                want_pos = [x.arg for x in a.posonlyargs + a.args] + ([f"*{a.vararg.arg}"] if a.vararg else [])
+                fwd_named = all(kws.get(nm) == nm for nm in [x.arg for x in a.kwonlyargs]) and (pos == want_pos or (pos == ([f"*{a.vararg.arg}"] if a.vararg else []) and all(kws.get(nm) == nm for nm in named)))
+                fwd_kw = (a.kwarg is None and "**" not in kws) or (a.kwarg is not None and kws.get("**") == a.kwarg.arg)
+                extra = set(kws) - set(named) - {"**", "tarinfo"}
+                if ast.unparse(call.func) not in ("tarfile.TarFile", "tarfile.open"):
+                    why = f"returns {ast.unparse(call.func)}(...), not the stdlib factory"
+                elif not (fwd_named and fwd_kw) or extra or a.defaults or a.kw_defaults:
+                    why = "arguments are not forwarded unchanged (renamed, defaulted, dropped or added)"
+        except Unsupported as e:
+            why = str(e)
+        rep.obligations[name2] = {"verdict": "discharged" if not why else "undischarged", "atoms": 1, "ms": 0, "backends": {"set-inclusion"}, "stages": set(), "line": 0, "props": ["C20"]}
+        if why:
+            p = driver.write_replay(pid, name2, {"property": pid, "obligation": name2, "verifier_output": f"{qual}: {why}"})
+            rep.violations.append((p, f"vmtar.{qual} does not hand the caller's arguments unchanged to the stdlib factory: {why}", True))
     rep.add_trusted("A3 stdlib tarfile: TarInfo.frombuf/_proc_member/_proc_builtin, TarFile.next/extractfile (extractfile reads fileobj[offset_data : offset_data+size]), gzip wrapping")
 
 
